@@ -4,7 +4,7 @@
 
 use crate::haystack::val::Value;
 use crate::timezone::{
-    is_utc, make_date_time, make_date_time_with_tz, timezone_short_name, utc_now, DateTimeType,
+    is_utc, make_date_time, make_date_time_from_text, timezone_short_name, utc_now, DateTimeType,
 };
 use chrono::{DateTime as DateTimeImpl, FixedOffset, Utc};
 
@@ -48,7 +48,7 @@ impl DateTime {
     pub fn parse_from_rfc3339_with_timezone(datetime: &str, tz: &str) -> Result<DateTime, String> {
         match DateTimeImpl::<FixedOffset>::parse_from_rfc3339(datetime) {
             Ok(value) => Ok(DateTime {
-                value: make_date_time_with_tz(&value, tz)?,
+                value: make_date_time_from_text(&value, tz)?,
             }),
             Err(err) => Err(format!("Can't parse date time {err}")),
         }
